@@ -22,8 +22,8 @@ func init() {
 				Configs:     withClients(cfgs(pick(tier, []string{"A"}, allMethods), []string{"keep", "lose"}, []bool{false}), 2, "retry", "retry-retryfirst"),
 				Singles:     true,
 				Pairs:       pick(tier, nil, []string{"q1x3", "q2x2", "pre"}),
-				PairsSample: scale(tier, 40, 400),
-				Random:      scale(tier, 100, 1500),
+				PairsSample: scale(tier, 40, 2000),
+				Random:      scale(tier, 100, 8000),
 				Steer:       true,
 				Drops:       true,
 			}, tier)
@@ -53,8 +53,8 @@ func init() {
 				Configs:     cfgs(allMethods, []string{"keep"}, []bool{false}),
 				Singles:     true,
 				Pairs:       pick(tier, []string{"q2x1", "q2x2"}, []string{"q2x1", "q2x2", "q2x3", "q2mix"}),
-				PairsSample: scale(tier, 60, 600),
-				Random:      scale(tier, 100, 2000),
+				PairsSample: scale(tier, 60, 3000),
+				Random:      scale(tier, 100, 10000),
 				Drops:       true,
 			}, tier)
 		},
@@ -81,8 +81,8 @@ func init() {
 				Configs:     withClients(cfgs(pick(tier, []string{"A"}, allMethods), []string{"keep", "lose"}, []bool{false}), 1, "retry", "retry-retryfirst"),
 				Singles:     true,
 				Pairs:       pick(tier, []string{"q1x3"}, []string{"q1x3", "q2x3", "pre"}),
-				PairsSample: scale(tier, 50, 500),
-				Random:      scale(tier, 100, 1500),
+				PairsSample: scale(tier, 50, 2500),
+				Random:      scale(tier, 100, 8000),
 			}, tier)
 		},
 		Run: runRetryCase("C03", func(a *scen.Analysis) ([]scen.Finding, bool, map[string]int) {
@@ -102,9 +102,9 @@ func init() {
 				Workloads:   []string{"subs1", "subs2", "subs3", "subs4", "subs5", "subs6", "mixed", "outage2"},
 				Configs:     withClients(cfgs([]string{"A"}, []string{"keep", "lose"}, []bool{false, true}), 4, "retry", "retry-retryfirst"),
 				Singles:     true,
-				PairsSample: scale(tier, 40, 600),
-				Random:      scale(tier, 100, 1500),
-				RandHist:    scale(tier, 120, 4000),
+				PairsSample: scale(tier, 40, 1500),
+				Random:      scale(tier, 100, 4000),
+				RandHist:    scale(tier, 120, 12000),
 			}, tier)
 		},
 		Run: runRetryCase("C08", func(a *scen.Analysis) ([]scen.Finding, bool, map[string]int) {
@@ -126,8 +126,8 @@ func init() {
 				Configs:     withClients(cfgs(allMethods, []string{"keep", "lose"}, []bool{false})[:scale(tier, 2, 4)], 1, "retry"),
 				Singles:     true,
 				Pairs:       pick(tier, []string{"q2x2"}, []string{"q2x2", "q2x3", "preset"}),
-				PairsSample: scale(tier, 50, 500),
-				Random:      scale(tier, 100, 1500),
+				PairsSample: scale(tier, 50, 2500),
+				Random:      scale(tier, 100, 8000),
 				Drops:       true,
 			}, tier)
 		},
@@ -148,8 +148,8 @@ func init() {
 				Workloads:   []string{"in1", "in2", "in3", "in4"},
 				Configs:     withClients(cfgs([]string{"A"}, []string{"keep", "lose"}, []bool{false}), 1, "retry"),
 				Singles:     true,
-				PairsSample: scale(tier, 60, 800),
-				Random:      scale(tier, 100, 2000),
+				PairsSample: scale(tier, 60, 4000),
+				Random:      scale(tier, 100, 12000),
 			}, tier)
 		},
 		Run: runRetryCase("C17", func(a *scen.Analysis) ([]scen.Finding, bool, map[string]int) {
